@@ -30,6 +30,7 @@ GRAPH = {"Start": ["Symbolic_Model"], "Symbolic_Model": ["Fit_Model"], "Fit_Mode
 TRANSITION = {("Start", "Symbolic_Model"): "symbolic_model", ("Symbolic_Model", "Fit_Model"): "fit_model"}
 
 RECORDED = []
+SCORED = []
 
 
 def plan(tier, seed):
@@ -50,6 +51,7 @@ def floors(tier):
                          "non_stateid_targets_refused": n["sm"] * 3, "too_small_refused": n["small"] * 3,
                          "grid_fits_checked": max(1, n["grid"] - 1), "candidates_checked_in_grid": n["grid"] * 3,
                          "grid_fits_where_selected_is_not_first_value": 1,
+                         "scored_estimators_observed": n["grid"] * 4,
                          "exported_config_fields_checked": n["grid"]}}
 
 
@@ -64,6 +66,17 @@ def setup_worker(ctx):
 
     ctx["orig_gs"] = usm.GridSearchCV
     usm.GridSearchCV = RecordingGridSearchCV
+
+    # what the search actually evaluates: the configuration of every estimator that is scored
+    orig_call = usm.NisScore.__call__
+
+    def recording_call(self, estimator, X, y=None):
+        cfg = estimator.get_params()["config"]
+        SCORED.append({f: getattr(cfg, f, None) for f in ("innovation_filtering", "max_dt_sec",
+                                                           "common_subexpression_elimination")})
+        return orig_call(self, estimator, X, y)
+
+    usm.NisScore.__call__ = recording_call
 
 
 def small_defn(rng):
@@ -244,6 +257,7 @@ def _grid_once(R, rng, defn, b, grid, X, reverse):
     from formak import ui
 
     del RECORDED[:]
+    del SCORED[:]
     fp = gen.fingerprint(["grid", defn, {k: [repr(v) for v in vs] for k, vs in grid.items()}, X.tolist()])
     R.fps_all.append(fp)
     if len(grid) >= 2:
@@ -269,6 +283,16 @@ def _grid_once(R, rng, defn, b, grid, X, reverse):
         for k, vs in grid.items():
             if not any(cand.get(k) is v or cand.get(k) == v for v in vs):
                 R.add([K.V("grid:candidate-outside-grid", f"candidate {k}={cand.get(k)!r} is not in the supplied grid {vs}", **w)])
+    # every candidate must have been evaluated as specified: some scored estimator carried exactly the
+    # candidate's values of the searched configuration fields
+    for cand in gs.cv_results_["params"]:
+        want = {k: cand[k] for k in grid}
+        if not any(all((sc.get(k) is v or sc.get(k) == v) for k, v in want.items()) for sc in SCORED):
+            R.add([K.V("grid:candidate-not-evaluated-as-specified",
+                       f"no scored estimator carried the candidate's hyper-parameters {want}; scored configurations: "
+                       f"{[dict(t) for t in {tuple(sorted((k, repr(v)) for k, v in sc.items() if k in grid)) for sc in SCORED}][:6]}", **w)])
+            break
+    R.stats.inc("scored_estimators_observed", len(SCORED))
     best = gs.best_params_
     if any(not (best.get(k) is vs[0] or best.get(k) == vs[0]) for k, vs in grid.items()):
         R.stats.inc("grid_fits_where_selected_is_not_first_value")
